@@ -459,3 +459,79 @@ theorem goodSubst_of_freshen {Γ : Ctx} {C A : List Nat} {M : Nat}
     · rcases (h3 q hq).2.2 with h | h
       · left; rw [e2, h, e1]
       · right; rw [e2]; exact h.1
+
+/-! ## filterBySet keeps positions (optimality; not needed for typing) -/
+
+theorem filterLoop_positions (S : List Nat) :
+    ∀ (rest pre mid tail : List Binding), rest = mid ++ tail →
+      ∃ X, filterLoop S rest pre.length (pre ++ mid) = pre ++ X ∧ X.length ≤ mid.length ∧
+        ∀ j b, mid[j]? = some b → inSet S b = true → j < X.length → X[j]? = some b := by
+  intro rest
+  induction rest with
+  | nil =>
+    intro pre mid tail h
+    have : mid = [] := by
+      cases mid with
+      | nil => rfl
+      | cons a b => simp at h
+    subst this
+    exact ⟨[], by simp [filterLoop], by simp, by intro j b h; simp at h⟩
+  | cons b rest ih =>
+    intro pre mid tail h
+    cases mid with
+    | nil => exact ⟨[], by simp [filterLoop], by simp, by intro j b h; simp at h⟩
+    | cons b' mid' =>
+      have hb : b = b' := by simp at h; exact h.1
+      have hrest : rest = mid' ++ tail := by simp at h; exact h.2
+      subst hb
+      unfold filterLoop
+      have hc : ¬ (pre.length ≥ (pre ++ b :: mid').length) := by simp
+      rw [if_neg hc]
+      by_cases hin : S.contains b.var.id = true
+      · have : (!S.contains b.var.id) = false := by rw [hin]; rfl
+        simp only [this, Bool.false_eq_true, if_false]
+        have e1 : pre ++ b :: mid' = (pre ++ [b]) ++ mid' := by simp
+        have e2 : pre.length + 1 = (pre ++ [b]).length := by simp
+        rw [e1, e2]
+        obtain ⟨X, hX1, hX2, hX3⟩ := ih (pre ++ [b]) mid' tail hrest
+        refine ⟨b :: X, by rw [hX1]; simp, by simp; omega, ?_⟩
+        intro j c hj hc' hlt
+        cases j with
+        | zero => simp at hj ⊢; exact hj
+        | succ j => simp at hj hlt ⊢; exact hX3 j c hj hc' hlt
+      · have hnb : inSet S b = false := by simpa [inSet] using hin
+        have hin' : S.contains b.var.id = false := Bool.eq_false_iff.2 hin
+        have : (!S.contains b.var.id) = true := by rw [hin']; rfl
+        simp only [this, if_true]
+        rcases filterWhile_spec S pre b _ mid' rfl with ⟨l, m0, junk, hm, h1, h2, h3⟩ | ⟨h1, h2⟩
+        · rw [h3]
+          simp only [Bool.not_true, Bool.false_eq_true, if_false]
+          have e1 : pre ++ l :: m0 = (pre ++ [l]) ++ m0 := by simp
+          have e2 : pre.length + 1 = (pre ++ [l]).length := by simp
+          rw [e1, e2]
+          have hr : rest = m0 ++ (l :: junk ++ tail) := by rw [hrest, hm]; simp
+          obtain ⟨X, hX1, hX2, hX3⟩ := ih (pre ++ [l]) m0 _ hr
+          refine ⟨l :: X, by rw [hX1]; simp, by simp [hm]; omega, ?_⟩
+          intro j c hj hc' hlt
+          cases j with
+          | zero =>
+            simp at hj; subst hj; rw [hnb] at hc'; cases hc'
+          | succ j =>
+            simp at hj hlt ⊢
+            apply hX3 j c ?_ hc' hlt
+            have hjm : j < m0.length := by omega
+            rw [hm, List.getElem?_append_left hjm] at hj
+            exact hj
+        · rw [h2]
+          simp only [Bool.not_false, if_true, List.dropLast_concat]
+          exact ⟨[], by simp, by simp, by intro j c _ _ hlt; simp at hlt⟩
+
+/-- T1 ("preserves positions"): a binding that is kept and whose position still exists in the
+result stays at its position. -/
+theorem filterBySet_positions (Γ : Ctx) (S : List Nat) (j : Nat) (b : Binding)
+    (hj : Γ[j]? = some b) (hb : b.var.id ∈ S) (hlt : j < (filterBySet Γ S).length) :
+    (filterBySet Γ S)[j]? = some b := by
+  obtain ⟨X, hX1, _, hX3⟩ := filterLoop_positions S Γ [] Γ [] (by simp)
+  have e : filterBySet Γ S = X := by simpa [filterBySet] using hX1
+  rw [e] at hlt ⊢
+  exact hX3 j b hj (by simpa [inSet] using hb) hlt
